@@ -255,7 +255,8 @@ class StreamReader:
         assert self._eof_waiter is None
         self._eof_waiter = self._loop.create_future()
         try:
-            await self._eof_waiter
+            with self._timer:
+                await self._eof_waiter
         finally:
             self._eof_waiter = None
 
